@@ -36,6 +36,13 @@ func VfsRedirects() map[string]string {
 		"(*os.File).Chmod":     v + "FileChmod",
 		rn + "WithRoot":        v + "WithRoot",
 		rn + "NewPendingFile":  v + "NewPendingFile",
+		rn + "WithReplaceOnClose":      v + "WithReplaceOnClose",
+		rn + "WithPermissions":         v + "WithPermissions",
+		rn + "WithStaticPermissions":   v + "WithPermissions",
+		rn + "WithExistingPermissions": v + "WithExistingPermissions",
+		rn + "IgnoreUmask":             v + "WithExistingPermissions",
+		rn + "WithTempDir":             v + "WithTempDir",
+		"(*" + rn + "PendingFile).Close": v + "PendingClose",
 		rn + "SymlinkRoot":     v + "SymlinkRoot",
 		"(*" + rn + "PendingFile).Cleanup":                v + "PendingCleanup",
 		"(*" + rn + "PendingFile).CloseAtomicallyReplace": v + "PendingCloseAtomicallyReplace",
